@@ -22,7 +22,7 @@ From TucModel Require Import Base.Bytes Base.ListX Model.Bounds Spec.Resolve Pro
   Model.CutBytes Spec.BytesMode Tie.Gen_cut_bytes Tie.Bridge_cut_bytes
   Spec.Fields Proofs.ScanSplit Tie.RsScan Tie.Gen_fill_fields Tie.Bridge_fill_fields Tie.Gen_compress_delimiter Tie.Bridge_compress_delimiter
   Proofs.C01More Tie.Gen_trim Tie.Bridge_trim
-  Tie.Gen_fb_try_from Tie.Bridge_fb_try_from Tie.Gen_print_field Tie.Bridge_print_field Tie.Gen_print_bof Tie.Bridge_print_bof Model.CutBytes Tie.Gen_print_rest Tie.Bridge_print_rest
+  Tie.Gen_fb_try_from Tie.Bridge_fb_try_from Tie.Gen_print_field Tie.Bridge_print_field Tie.Gen_print_bof Tie.Bridge_print_bof Model.CutBytes Tie.Gen_print_rest Tie.Bridge_print_rest Tie.Gen_cut_lines Tie.Bridge_cut_lines
   Proofs.C06 Proofs.PlainMulti Tie.RsCut Tie.Gen_cut_str Tie.Bridge_cut_str
   Model.Utf8 Model.CutLines Proofs.C05 Proofs.C03Full Proofs.C05Full Tie.RsLines Tie.Gen_read_and_cut_lines Tie.Bridge_read_and_cut_lines
   Proofs.C12 Proofs.C16 Tie.Gen_fill_regex Tie.Bridge_fill_regex Tie.Gen_trim_regex Tie.Bridge_trim_regex Tie.Gen_compress_regex Tie.Bridge_compress_regex
@@ -461,7 +461,37 @@ Theorem tie_C13_pending_bounds_at_record_end : forall (g : gsopt) (i : nat) (n :
   end.
 Proof. exact tie_print_rest. Qed.
 
+(** C05 over the translated whole-input algorithm of -l (the translated [cut_lines] calling the translated
+    [cut_str]): for a request that resolves, it prints the selection of the statement *)
+Theorem tie_C05_buffered_reader : forall (o : opt) (input : bytes) (bs : list bof) (x : bytes),
+  plain_opts o (o_eol o) -> o_trim o = None -> o_only_delimited o = false -> o_replace o = None ->
+  items (o_bounds o) = bs -> Forall item_nz bs ->
+  utf8_valid input = true -> input <> [] -> strip_one_suffix (o_eol o) input <> [] ->
+  spec_items (records (o_eol o) input) (o_fallback o) (o_join o) [o_eol o] bs = Some x ->
+  Z.of_nat (length input) + 2 <= i32_max ->
+  gen_cut_lines input o = Ret (Some tt, x ++ [o_eol o]).
+Proof.
+  intros o input bs x Hp Ht Hs Hr Hb Hnz Hv Hi Hst Hx Hlen.
+  pose proof (C05_buffered_same o input bs x Hp Ht Hs Hr Hb Hnz Hv Hi Hst Hx) as E.
+  destruct Hp as (Hd & Hre & Hj & Hbt & Hc & Hg & Hcp).
+  assert (Hl : (length (strip_one_suffix (o_eol o) input) <= length input)%nat).
+  { unfold strip_one_suffix. destruct (rev input) as [|y r] eqn:Er; [lia|]. destruct (N.eqb y (o_eol o)); [|lia].
+    rewrite rev_length. apply (f_equal (@length _)) in Er. rewrite rev_length in Er. cbn [length] in Er. lia. }
+  set (l' := strip_one_suffix (o_eol o) input) in *.
+  assert (E1 : line1 o l' = l') by (unfold line1; rewrite Ht; reflexivity).
+  assert (E2 : line2 o l' = l') by (unfold line2, compresses; rewrite Hcp; reflexivity).
+  assert (H : of_rres_cut (cut_str o l') (gen_cut_str l' o [] [] [o_eol o])).
+  { apply tie_cut_str_literal; try assumption.
+    - intros Ec. rewrite Ec in Hbt. discriminate.
+    - rewrite <- Hb in Hnz. exact Hnz.
+    - rewrite Hd. cbn [length]. unfold usize_max, i32_max in *. lia.
+    - rewrite E1, E2, Hd. cbn [length]. unfold usize_max, i32_max in *. lia.
+    - rewrite E1, E2. unfold RsPrelude.i32_max, i32_max in *. lia. }
+  pose proof (tie_cut_lines input o H) as T. rewrite E in T. exact T.
+Qed.
+
 Print Assumptions tie_try_into_range_spec.
+Print Assumptions tie_C05_buffered_reader.
 Print Assumptions tie_C13_pending_bounds_at_record_end.
 Print Assumptions tie_C04_print_bof_step.
 Print Assumptions tie_C07_general_path.
